@@ -80,8 +80,11 @@ ASSUMPTIONS = [
     "inf inputs are probed on the implementation only",
     "a Parameter is used in the roles for which its values have exact sqrt/trig results: reflectivity and loss "
     "(x = c^2, Pythagorean c) or phase (atan2 of a rational circle point); non-numeric values are str / None",
-    "histories: <= 8 Parameters, <= 6 circuits of <= 5 user modes, <= 45 calls in the correspondence check "
-    "(theorems are unbounded)",
+    "histories: <= 8 Parameters, <= 12 circuits of <= 8 modes, <= 60 calls in the correspondence check "
+    "(theorems are unbounded); the directed field-role corpus is compared with the model at the end of each history "
+    "(outcome of every call, final observables), every other history after every call",
+    "Python numerics outside the exact tables (numpy / Fraction zeros, one-ulp and denormal steps across a bound or "
+    "across [0, 1] of a field) are checked on the implementation alone (probe streams, `oracle-only` counters)",
 ]
 
 # compress_mode_swaps / remove_non_adjacent_bs / unpack_groups are part of the histories: they rebuild
@@ -425,6 +428,126 @@ def probe_numeric(ctx: Ctx, rng) -> None:
     probe_run(ctx, steps, "numeric")
 
 
+# values for a Parameter-carrying field, as source text (so that a replay shows exactly what was used)
+FIELD_UNIT = ["0", "0.0", "-0.0", "1", "1.0", "np.float64(0.0)", "np.float64(1.0)", "np.int64(0)", "np.int64(1)",
+              "0.5", "0.36", "np.float32(0.25)", "5e-324", "math.nextafter(1.0, 0.0)", "1e-300",
+              # invalid for reflectivity / loss, by an ulp, a denormal, a little, a lot
+              "math.nextafter(1.0, 2.0)", "-5e-324", "1 + 1e-9", "-1e-9", "1.5", "-0.25", "2", "-1"]
+FIELD_PHI = ["0", "0.0", "-0.0", "1", "-1", "np.float64(0.0)", "np.int64(0)", "math.pi", "-math.pi", "2 * math.pi",
+             "5e-324", "1e-300", "0.7", "-2.5", "1e6"]
+FIELD_ENV = {"np": np, "math": math, "Fraction": Fraction}
+FIELD_REWRITES = [None, None, "nonadj", "nonadj", "compress", "unpack", "copy", "plus", "add_group", "add_flat",
+                  "add_group+nonadj", "add_group+unpack+nonadj"]
+
+
+def field_build(role: str, x, rw: str | None):
+    """a small circuit whose `role` field is x (a Parameter or a plain number), then the rewrite"""
+    c = lw.Circuit(4)
+    c.ps(0, 0.3)
+    c.mode_swaps({0: 1, 1: 0})
+    c.mode_swaps({1: 2, 2: 1})
+    if role == "refl":
+        c.bs(1, 2, reflectivity=x)
+    elif role == "refl_far":
+        c.bs(3, 0, reflectivity=x, convention="H")
+    elif role == "bsloss":
+        c.bs(0, 2, reflectivity=0.36, loss=x)
+    elif role == "psloss":
+        c.ps(2, 0.7, loss=x)
+    elif role == "loss":
+        c.loss(1, x)
+    else:
+        c.ps(1, x)
+    c.bs(2, 3)
+    for step in (rw.split("+") if rw else []):
+        if step == "nonadj":
+            c.remove_non_adjacent_bs()
+        elif step == "compress":
+            c.compress_mode_swaps()
+        elif step == "unpack":
+            c.unpack_groups()
+        elif step == "copy":
+            c = c.copy()
+        elif step == "plus":
+            c = c + c
+        else:
+            host = lw.Circuit(5)
+            host.bs(0, 4)
+            host.add(c, 1, group=step == "add_group")
+            c = host
+    return c
+
+
+def nan_close(a, b, tol: float = 1e-12) -> bool:
+    a, b = np.asarray(a, dtype=complex), np.asarray(b, dtype=complex)
+    if a.shape != b.shape:
+        return False
+    na, nb = np.isnan(a), np.isnan(b)
+    return bool(np.array_equal(na, nb) and np.all(np.abs(np.where(na, 0, a) - np.where(nb, 0, b)) <= tol))
+
+
+def probe_field(ctx: Ctx, rng) -> None:
+    role = rng.choice(["refl", "refl_far", "refl_far", "bsloss", "psloss", "loss", "phi"])
+    tab = FIELD_PHI if role == "phi" else FIELD_UNIT
+    desc = {"role": role, "rewrite": rng.choice(FIELD_REWRITES), "v0": rng.choice(tab[:15]),
+            "sets": [rng.choice(tab) for _ in range(rng.randint(2, 4))], "via_dict": rng.random() < 0.3}
+    ctx.count(f"probe:field:{role}:{desc['rewrite']}:oracle-only")
+    field_run(ctx, desc)
+
+
+def field_run(ctx: Ctx, desc: dict) -> None:
+    """live / invalid_value / listing for one Parameter-carrying field and Python numerics outside the exact
+    tables: after every update, U of the (rewritten) parametrised circuit = U of the same circuit built from
+    the plain value; if the plain value is rejected, U must raise CircuitCompilationError"""
+    role, rw = desc["role"], desc["rewrite"]
+    rep = {"field_probe": desc}
+
+    def plain(x):
+        try:
+            return np.array(field_build(role, x, rw).U)
+        except Exception as e:  # noqa: BLE001
+            return type(e).__name__
+
+    v0 = eval(desc["v0"], FIELD_ENV)  # noqa: S307
+    p = lw.Parameter(v0)
+    pd = lw.ParameterDict(k=p)
+    try:
+        c = field_build(role, p, rw)
+    except Exception as e:  # noqa: BLE001
+        if not isinstance(plain(v0), str):
+            ctx.violation(f"oracle[live]: {role}=Parameter({desc['v0']}) is rejected ({type(e).__name__}) although the "
+                          f"plain value is accepted", rep, sig={"kind": "live", "nan_input": False})
+        return
+    for k, src in enumerate([desc["v0"], *desc["sets"]]):
+        v = eval(src, FIELD_ENV)  # noqa: S307
+        if k:
+            if desc["via_dict"]:
+                pd["k"] = v
+            else:
+                p.set(v)
+        exp = plain(v)
+        try:
+            obs = np.array(c.U)
+        except Exception as e:  # noqa: BLE001
+            obs = type(e).__name__
+        listed = c.get_all_params()
+        what = None
+        if len(listed) != 1 or listed[0] is not p:
+            what = ("listing", f"get_all_params lists {len(listed)} parameters / not the user's object")
+        elif isinstance(exp, str) and not isinstance(obs, str):
+            what = ("invalid_value", f"the plain value is rejected ({exp}) but U returns a matrix")
+        elif isinstance(exp, str) and obs != "CircuitCompilationError":
+            what = ("invalid_value", f"U raises {obs}, not CircuitCompilationError")
+        elif not isinstance(exp, str) and isinstance(obs, str):
+            what = ("live", f"U raises {obs} although the same circuit built from the plain value compiles")
+        elif not isinstance(exp, str) and not nan_close(obs, exp):
+            what = ("live", "U is not the unitary of the same circuit built from the plain value")
+        if what:
+            ctx.violation(f"oracle[{what[0]}]: field {role} (rewrite {rw}) after update #{k} to {src}: {what[1]}",
+                          {"field_probe": {**desc, "sets": desc["sets"][:k]}}, sig={"kind": what[0], "nan_input": False})
+            return
+
+
 def probe_run(ctx: Ctx, steps: list, kind: str) -> None:
     p = None
     pd = None
@@ -620,11 +743,15 @@ def run(ctx: Ctx) -> None:
     self_test(ctx)
     rng = ctx.rng
     state = {"i": 0}
+    secs: dict[str, float] = {}
+    ctx.extra["stream_seconds"] = secs
 
     def one(stream: str, prog: list, counts: dict, **kw) -> bool:
         """run one history; False = stop generating"""
         stats: dict = {}
+        t1 = time.time()
         probs = run_case(ctx, prog, stats=stats, **kw)
+        secs[stream] = round(secs.get(stream, 0.0) + time.time() - t1, 2)
         res = stats["results"]
         ctx.count("stream:" + stream)
         for k, v in counts.items():
@@ -670,7 +797,7 @@ def run(ctx: Ctx) -> None:
         if missing and "corpus" in STREAMS and not (ctx.violations or ctx.disagreements):
             raise MachineryFault(f"the directed corpus no longer exercises: {missing}")
         # -- random streams, interleaved so that a time cap cuts all of them alike
-        plan = (["generic"] * ctx.n(220, 3000) + ["boundary"] * ctx.n(200, 2000) + ["rewrite"] * ctx.n(90, 1000))
+        plan = (["generic"] * ctx.n(300, 3000) + ["boundary"] * ctx.n(300, 3000) + ["rewrite"] * ctx.n(150, 1500))
         plan = [x for x in plan if x in STREAMS]
         rng.shuffle(plan)
         for i, stream in enumerate(plan):
@@ -680,7 +807,12 @@ def run(ctx: Ctx) -> None:
                 prog, counts = pg.gen_boundary_history(rng, big=ctx.thorough)
             else:
                 prog, counts = pg.gen_rewrite_history(rng, big=ctx.thorough)
-            if not one(stream, prog, counts, sample_pts=ctx.n(3, 5)):
+            # the exact model of a nested, rewritten circuit is the expensive part of a `rewrite` history: two in
+            # three of them are compared with the model at the end only (the oracles run after every call anyway)
+            mode = "final" if stream == "rewrite" and i % 3 else "each"
+            if mode == "final":
+                ctx.count("rewrite:model compared at the end only")
+            if not one(stream, prog, counts, sample_pts=ctx.n(3, 5), model=mode):
                 return
             if ctx.thorough and i % 500 == 499:
                 eprint(f"[C10] {i + 1}/{len(plan)} histories, {round(time.time() - ctx.t0)}s")
@@ -688,19 +820,29 @@ def run(ctx: Ctx) -> None:
     streams()
     if STREAMS != ["corpus", "generic", "boundary", "rewrite", "probe"]:
         ctx.notes.append(f"C10_STREAMS={','.join(STREAMS)}: not the full check")
-    for i in range(ctx.n(240, 2400) if "probe" in STREAMS else 0):
+    for i in range(ctx.n(360, 3600) if "probe" in STREAMS else 0):
         if ctx.out_of_time():
+            break
+        if len(ctx.violations) >= 8:
+            ctx.notes.append("probe stream stopped early: 8 violations")
             break
         if i % 3 == 0:
             probe(ctx, rng)
-        else:
+        elif i % 3 == 1:
             probe_numeric(ctx, rng)
+        else:
+            probe_field(ctx, rng)
         ctx.evaluations += 1
 
 
 def replay(ctx: Ctx, path: str) -> None:
     data = json.load(open(path))
     rp = data["replay"]
+    if "field_probe" in rp:
+        print("replay: field probe", rp["field_probe"])
+        field_run(ctx, rp["field_probe"])
+        ctx.case("replay", True)
+        return
     if "probe" in rp:
         print("replay: probe histories are re-run by the probe stream (values are python reprs):", rp["probe"])
         env = {"nan": NAN, "inf": math.inf, "np": np, "Fraction": Fraction}
